@@ -76,23 +76,35 @@ def driver_path(exe):
 
 
 def prepare_harness_module():
-    """the harness is its own module with `replace github.com/olareg/olareg => /repo`; it needs /repo's go.sum"""
-    src = os.path.join(REPO, "go.sum")
-    dst = os.path.join(HARNESS, "go.sum")
-    if os.path.exists(src):
-        shutil.copyfile(src, dst)
+    """the harness is its own module that replaces github.com/olareg/olareg by the tree under test; the go.mod
+    actually used is generated under .work (so VERIF_REPO can point at a scratch worktree) next to a copy of
+    that tree's go.sum"""
+    d = os.path.join(WORK, "mod")
+    os.makedirs(d, exist_ok=True)
+    tag = hashlib.sha256(REPO.encode()).hexdigest()[:10]
+    mod = os.path.join(d, "harness_%s.mod" % tag)
+    with open(os.path.join(HARNESS, "go.mod")) as f:
+        src = f.read()
+    src = re.sub(r"replace github.com/olareg/olareg => \S+", "replace github.com/olareg/olareg => " + REPO, src)
+    with open(mod, "w") as f:
+        f.write(src)
+    shutil.copyfile(os.path.join(REPO, "go.sum"), os.path.join(d, "harness_%s.sum" % tag))
+    return mod
 
 
-def go_build(cmd_name, tags="verif"):
-    """build /verif/harness/cmd/<cmd_name> against /repo's working tree"""
+def go_build(cmd_name, tags="verif", race=False):
+    """build /verif/harness/cmd/<cmd_name> against the working tree of REPO"""
     os.makedirs(BIN, exist_ok=True)
-    out = os.path.join(BIN, cmd_name)
+    out = os.path.join(BIN, cmd_name + ("_race" if race else ""))
     with Lock("gobuild"):
-        prepare_harness_module()
+        mod = prepare_harness_module()
         if os.path.exists(out):
             os.remove(out)
-        p = sh(["go", "build", "-tags", tags, "-o", out, "./cmd/" + cmd_name], cwd=HARNESS, check=False, timeout=900)
-    if p.returncode != 0:
+        cmd = ["go", "build", "-modfile", mod, "-tags", tags, "-o", out]
+        if race:
+            cmd.append("-race")
+        p = sh(cmd + ["./cmd/" + cmd_name], cwd=HARNESS, check=False, timeout=900)
+    if p.returncode != 0 or not os.path.exists(out):
         return None, p.stdout
     return out, p.stdout
 
